@@ -283,6 +283,7 @@ class Program:
     def __init__(self, mir_text, enums, structs):
         from .rustsrc import STD_ENUMS
         self.items = mirparse.parse_mir(mir_text)
+        self._mir_lines = mir_text.split('\n')
         self.allocs = {}
         for m in re.finditer(r'^(alloc\d+) \(static: ([^,]+),', mir_text, re.M):
             self.allocs[m.group(1)] = m.group(2)
@@ -338,6 +339,20 @@ class Program:
             res = None
         self._impl_self[key] = res
         return res
+
+    def debug_names(self, item):
+        """{source variable name: MIR local} from the `debug x => _N;` lines of an item"""
+        out = {}
+        i = item.line
+        # item.line is the 0- or 1-based line of the header; scan forward to the first basic block
+        for j in range(max(i - 1, 0), min(i + 2000, len(self._mir_lines))):
+            ln = self._mir_lines[j].strip()
+            if re.match(r'^bb\d+', ln):
+                break
+            m = re.match(r'^debug (\w+) => _(\d+);$', ln)
+            if m:
+                out.setdefault(m.group(1), int(m.group(2)))
+        return out
 
     def impl_trait(self, item_name):
         """last path segment of the trait an impl block implements (`impl fmt::Display for X` -> Display; a derive's span
